@@ -1012,8 +1012,19 @@ class Executor:
         self.slice_end = end_line
         bb, first = "bb0", 0
         if start_line is not None:
+            # blocks in breadth-first order from the entry: the slice starts at the EARLIEST statement of that line
+            order, seen, queue = {}, {"bb0"}, ["bb0"]
+            while queue:
+                b = queue.pop(0)
+                order[b] = len(order)
+                term = fn.blocks.get(b, [""])[-1]
+                term = re.sub(r"unwind: bb\d+", "", term)
+                for nb in re.findall(r"\bbb\d+\b", term):
+                    if nb not in seen and nb in fn.blocks:
+                        seen.add(nb)
+                        queue.append(nb)
             hit = None
-            for b in sorted(fn.blocks, key=lambda x: int(x[2:])):
+            for b in sorted(order, key=lambda x: order[x]):
                 for i, sl in enumerate(fn.srclines.get(b, [])):
                     if sl and sl[0].endswith(start_line[0]) and sl[1] == start_line[1]:
                         hit = (b, i)
